@@ -168,6 +168,8 @@ def parse_type(t):
     if isinstance(t, dict):
         if "@attrs" in t:
             return ("objattrs", t["@attrs"])
+        if "dataarray" in t:
+            return ("da", t)
         if "vars" in t or "coords" in t or "attrs" in t or "sizes" in t or "dims" in t:
             return ("ds", t)
         return ("dict", t)
